@@ -161,6 +161,14 @@ impl<Effect, Event> Command<Effect, Event> {
             }
 
             while let Ok(task_id) = self.ready_queue.try_recv() {
+                // The command may have been aborted since this pass started - by one of
+                // its own tasks, or from another thread. Aborted work is not polled again.
+                if self.was_aborted() {
+                    self.tasks.clear();
+
+                    return;
+                }
+
                 match self.run_task(task_id) {
                     TaskState::Missing => {
                         // The task has been evicted because it completed.  This can happen when
